@@ -22,6 +22,14 @@ Theorem C22_clone_writes_only_initialised_fields :
 Proof. exact cloned_fields_declared. Qed.
 Print Assumptions C22_clone_writes_only_initialised_fields.
 
+(* copies are as deep as the attribute is nested: e.g. DurativeAction._continuous_effects : Dict[TimeInterval, List[Effect]]
+   needs a new dict, new lists and cloned effects (a shallow dict.copy() would share the lists between original and
+   clone); the shallower copies that remain are the justified `shallow_accepted` rows, one of which is the open HTN finding *)
+Theorem C22_nested_fields_copied_deeply :
+  forall r, In r Gen_Clone.required_depth -> Gen_Clone.deep_enough r = true.
+Proof. exact nested_fields_copied_deeply. Qed.
+Print Assumptions C22_nested_fields_copied_deeply.
+
 (* the behavioural model below has exactly the attributes that Problem.clone() writes ... *)
 Theorem C22_model_attributes_are_the_cloned_ones :
   forall f, In f (Gen_Clone.cloned_of "Problem"%string) <->
@@ -125,7 +133,7 @@ Definition ex_state : pstate :=
      s_flat := [CList []; CList []; CList [(7, 3)%N]; CDict [(7, 0)%N]; CDict []; CDict []; CList []; CList [];
                 CList []; CList []; CList []; CDict []];
      s_nest := [ [(20%N, CAct {| a_static := 30; a_sim := []; a_effs := [(0%N, [])]; a_asg := [(0%N, [])];
-                                 a_incdec := [(0%N, [])] |})];
+                                 a_incdec := [(0%N, [])]; a_ceffs := [] |})];
                  [(5%N, CList [(40, 0)%N])]; []; [(5%N, CDict [])]; [(5%N, CList [(7, 0)%N])] ] |}.
 Definition ex_assign : op :=
   {| o_pre := None; o_body := OTimedEffect 5 {| e_id := 41; e_fl := 7; e_val := 50; e_kind := EAssign; e_skip := false |} |}.
@@ -149,6 +157,10 @@ Example C22_clone_copies_every_field_nonvacuous : In ("Problem", "_fluents_inc_d
 Proof. apply mem_pair_In. vm_compute. reflexivity. Qed.
 Example C22_clone_writes_only_initialised_fields_nonvacuous : In ("Problem", "_fluents_inc_dec")%string Gen_Clone.cloned_fields.
 Proof. apply mem_pair_In. vm_compute. reflexivity. Qed.
+Example C22_nested_fields_copied_deeply_nonvacuous :
+  In ("DurativeAction", "_continuous_effects", 3)%string Gen_Clone.required_depth
+  /\ In ("Problem", "_timed_goals", 2)%string Gen_Clone.required_depth.
+Proof. split; apply mem_triple_In; vm_compute; reflexivity. Qed.
 Example C22_subclasses_reuse_problem_clone_nonvacuous : In "_trajectory_constraints"%string (Gen_Clone.cloned_of "Problem"%string).
 Proof. apply mem_str_In. vm_compute. reflexivity. Qed.
 Example C22_clone_equal_nonvacuous : wf (fst (load ex_state)) (snd (load ex_state)).
